@@ -477,6 +477,19 @@ def llvm_intrinsic(ex, name, ins, d, gargs):
             a = ga(regs); b = gb(regs)
             regs[d] = select(icmp(pred, a, b, w), a, b, w)
         return f
+    if ('.sat.' in name) and key in ('usub', 'uadd', 'ssub', 'sadd'):
+        w = ins.ty.bits; ga, gb = gargs[0], gargs[1]
+        def f(st, regs):
+            a = ga(regs); b = gb(regs)
+            if key == 'usub': regs[d] = select(icmp('ugt', a, b, w), binop('sub', a, b, w), 0, w)
+            elif key == 'uadd':
+                s_ = binop('add', a, b, w); regs[d] = select(icmp('ult', s_, a, w), ops.mask(w), s_, w)
+            else:
+                a = ex.concretize(st, a, w, 'sat') if not isinstance(a, int) else a
+                b = ex.concretize(st, b, w, 'sat') if not isinstance(b, int) else b
+                x = ops.sgn(a, w) + ops.sgn(b, w) if key == 'sadd' else ops.sgn(a, w) - ops.sgn(b, w)
+                x = max(-(1 << (w - 1)), min((1 << (w - 1)) - 1, x)); regs[d] = x & ops.mask(w)
+        return f
     if key == 'abs':
         w = ins.ty.bits; ga = gargs[0]
         def f(st, regs):
